@@ -186,16 +186,23 @@ package cpumem
 //@   ensures[C15.info] result3 == nil ==> result0 != nil && allocated(result0) && fresh(result0) && okInfo(result0)
 //@        && (arr(result2) == 0 || (fresh(result2) && allocated(result2)))
 //@   loop 1:
-//@     modifies actuallyWorkloadsUsage, actuallyWorkloadsUsage.CPUMap, each r :: fresh(r)
+//@     modifies actuallyWorkloadsUsage, actuallyWorkloadsUsage.CPUMap, actuallyWorkloadsUsage.NUMAMemory
 //@     invariant actuallyWorkloadsUsage != nil && allocated(actuallyWorkloadsUsage) && fresh(actuallyWorkloadsUsage)
 //@     invariant actuallyWorkloadsUsage.CPUMap != nil && allocated(actuallyWorkloadsUsage.CPUMap) && fresh(actuallyWorkloadsUsage.CPUMap)
 //@     invariant actuallyWorkloadsUsage.NUMAMemory == nil || (allocated(actuallyWorkloadsUsage.NUMAMemory) && fresh(actuallyWorkloadsUsage.NUMAMemory))
 //@     invariant actuallyWorkloadsUsage.CPUMap != actuallyWorkloadsUsage.NUMAMemory
+//@     # the accumulator shares no map with the node record
+//@     invariant actuallyWorkloadsUsage.CPUMap != nodeResourceInfo.Capacity.CPUMap && actuallyWorkloadsUsage.CPUMap != nodeResourceInfo.Usage.CPUMap
+//@        && actuallyWorkloadsUsage.CPUMap != nodeResourceInfo.Capacity.NUMAMemory && actuallyWorkloadsUsage.CPUMap != nodeResourceInfo.Usage.NUMAMemory
+//@     invariant actuallyWorkloadsUsage.NUMAMemory == nil || (actuallyWorkloadsUsage.NUMAMemory != nodeResourceInfo.Capacity.CPUMap && actuallyWorkloadsUsage.NUMAMemory != nodeResourceInfo.Usage.CPUMap
+//@        && actuallyWorkloadsUsage.NUMAMemory != nodeResourceInfo.Capacity.NUMAMemory && actuallyWorkloadsUsage.NUMAMemory != nodeResourceInfo.Usage.NUMAMemory)
 //@     invariant forall k string :: actuallyWorkloadsUsage.CPUMap[k] == accCPU(arr(workloadsResource), off(workloadsResource), rangeindex + 1, k)
 //@     invariant forall k string :: actuallyWorkloadsUsage.NUMAMemory[k] == accNUMA(arr(workloadsResource), off(workloadsResource), rangeindex + 1, k)
 //@     invariant actuallyWorkloadsUsage.MemoryRequest == accMem(arr(workloadsResource), off(workloadsResource), rangeindex + 1)
 //@     invariant actuallyWorkloadsUsage.CPURequest == accReq(arr(workloadsResource), off(workloadsResource), rangeindex + 1)
-//@     invariant nodeResourceInfo != nil && allocated(nodeResourceInfo) && okInfo(nodeResourceInfo)
+//@     invariant actuallyWorkloadsUsage.CPUMap == pre(actuallyWorkloadsUsage.CPUMap)
+//@     # the accumulator's NUMA map is the one it started with or one decoded during the loop
+//@     invariant actuallyWorkloadsUsage.NUMAMemory == nil || actuallyWorkloadsUsage.NUMAMemory == pre(actuallyWorkloadsUsage.NUMAMemory) || sinceloop(actuallyWorkloadsUsage.NUMAMemory)
 //@   loop 2:
 //@     modifies nothing
 //@     invariant arr(diffs) == 0 || (fresh(diffs) && allocated(diffs))
